@@ -133,7 +133,39 @@ def extra(tier, ctx, seed):
         case = {"ns": "numpy", "width": "float64", "n": 4, "kind": "generic", "dims": 1, "ll": [0.0, 0.5, -0.25, 0.125], "lq": [0.0, 0.0, 0.0, 0.0],
                 "kernel": "frozen", "kernel_steps": 1, "adaptive": False, "seed": int(seed), "route": "api", "n_steps": n, "part": "all-n_steps"}
         ctx.cell(case, run_case)
-    return {"exhaustive_fixed_schedules": top, "exhaustive_note": f"every fixed schedule n_steps=1..{top} was run (4 particles, frozen kernel); the generated part is not exhaustive"}
+    # Adaptive schedules in which every step is forced by the floor (a Gaussian likelihood 100x narrower than the prior box, target
+    # efficiency 0.98, one random-walk kernel step): the temperatures are repeated float additions of min_step and must end at exactly 1.0
+    floors = sorted({1.0 / k for k in range(2, 31 if tier == "quick" else 121)} | {0.1, 0.2, 0.3, 0.7, 0.03, 0.07, 0.15, 0.35, 0.45})
+    n_forced = 0
+    for ms in floors:
+        ctx.cell({"part": "forced-floor-ladder", "min_step": ms, "seed": int(seed)}, _ladder_cell)
+        n_forced += 1
+    return {"exhaustive_fixed_schedules": top, "forced_floor_ladders": n_forced,
+            "exhaustive_note": f"every fixed schedule n_steps=1..{top} was run (4 particles, frozen kernel), and {n_forced} adaptive runs whose every step is the "
+                               "floor (min_step = 1/k and some decimal fractions); the generated part is not exhaustive"}
+
+
+def _ladder_cell(case, ctx):
+    from .. import ckpt_common as cc
+
+    c = {"sampler": "smc", "ns": "numpy", "width": "float64", "d": 2, "pre": "none", "leak": 0.0, "n": 40, "seed": 7 + case["seed"], "kernel_steps": 1,
+         "adaptive": True, "n_final": None, "ckpt_every": None, "resume_pick": None, "target": 0.98, "min_step": case["min_step"], "sharp": 0.01}
+    P = cc.CkptProblem(c)
+    _, h = P.run()
+    if P.rejected:
+        return {"nontrivial": False, "labels": ["forced-floor-ladder", "rejected:documented-NaN-ValueError"]}
+    betas = sc.floats(h.beta)
+    prev = 0.0
+    for t, b in enumerate(betas):
+        if not (0.0 < b <= 1.0):
+            ctx.fail("range", f"beta[{t}]={b!r} outside (0,1]", case)
+        if not b > prev:
+            ctx.fail("no-progress", f"beta did not increase at iteration {t + 1}: {prev!r} -> {b!r}", case)
+        prev = b
+    if not betas or betas[-1] != 1.0:
+        ctx.fail("end", f"run with min_step={case['min_step']!r} ended with beta={betas[-1] if betas else None!r} after {len(betas)} iterations (no cap set)", case)
+    forced = sum(1 for a, b in zip([0.0] + betas[:-1], betas) if abs((b - a) - case["min_step"]) <= 1e-12)
+    return {"nontrivial": forced >= 2, "labels": ["forced-floor-ladder", f"forced-steps:{min(forced, 9)}"]}
 
 
 def _float_sum_lands_exact(n):
